@@ -501,11 +501,8 @@ class DataLinkConnection(TransmissionControlObject):
                 self.state.CLOSED = True
                 raise err.ConnectRefused(rcvd_pdu.reason)
             elif rcvd_pdu.name == "CC":
-                self.peer = rcvd_pdu.ssap
+                # connection parameters were set when the CC arrived
                 self.recv_buf = self.recv_win
-                self.send_miu = rcvd_pdu.miu
-                self.send_win = rcvd_pdu.rw
-                self.state.ESTABLISHED = True
                 return
             else:  # pragma: no cover
                 raise RuntimeError("CC or DM expected, not " + rcvd_pdu.name)
@@ -650,6 +647,16 @@ class DataLinkConnection(TransmissionControlObject):
 
         elif self.state.CONNECT and rcvd_pdu.name in ("CC", "DM"):
             with self.lock:
+                if rcvd_pdu.name == "CC":
+                    # The connection is established now and not when
+                    # connect() gets to run, the first I PDU of the
+                    # peer may follow at once (it is queued behind
+                    # the CC that connect() still has to fetch).
+                    self.peer = rcvd_pdu.ssap
+                    self.send_miu = rcvd_pdu.miu
+                    self.send_win = rcvd_pdu.rw
+                    self.recv_buf = self.recv_win + 1
+                    self.state.ESTABLISHED = True
                 self.recv_queue.append(rcvd_pdu)
                 self.recv_ready.notify()
 
